@@ -107,6 +107,48 @@ pub fn check_writer(shape: &Shape, value: &Value, sched: &Sched, l: &mut Local) 
     Ok(())
 }
 
+/// bytes the reader-based decoder passes through the scratch buffer for this value: every str /
+/// bytes payload, plus floats and chars (an upper bound on what any sane implementation needs)
+fn scratch_upper(shape: &Shape, value: &Value) -> (usize, bool) {
+    fn walk(s: &Shape, v: &Value, acc: &mut usize, only_payloads: &mut bool) {
+        match (s, v) {
+            (Shape::F32, _) => {
+                *acc += 4;
+                *only_payloads = false
+            }
+            (Shape::F64, _) => {
+                *acc += 8;
+                *only_payloads = false
+            }
+            (Shape::Char, Value::Char(c)) => {
+                *acc += c.len_utf8();
+                *only_payloads = false
+            }
+            (Shape::Str | Shape::String, Value::Str(x)) => *acc += x.len(),
+            (Shape::Bytes | Shape::ByteBuf, Value::Bytes(x)) => *acc += x.len(),
+            (Shape::Option(i), Value::Some(x)) => walk(i, x, acc, only_payloads),
+            (Shape::Newtype(_, i), Value::Newtype(x)) => walk(i, x, acc, only_payloads),
+            (Shape::Seq(i), Value::List(xs)) => xs.iter().for_each(|x| walk(i, x, acc, only_payloads)),
+            (Shape::Tuple(ss) | Shape::TupleStruct(_, ss), Value::List(xs)) => ss.iter().zip(xs).for_each(|(s, x)| walk(s, x, acc, only_payloads)),
+            (Shape::Struct(_, fs), Value::List(xs)) => fs.iter().zip(xs).for_each(|((_, s), x)| walk(s, x, acc, only_payloads)),
+            (Shape::Map(k, vv), Value::Map(ps)) => ps.iter().for_each(|(a, b)| {
+                walk(k, a, acc, only_payloads);
+                walk(vv, b, acc, only_payloads)
+            }),
+            (Shape::Enum(_, vs), Value::Variant(pos, p)) => match (&vs[*pos].kind, &**p) {
+                (crate::dynshape::VKind::Newtype(i), x) => walk(i, x, acc, only_payloads),
+                (crate::dynshape::VKind::Tuple(ss), Value::List(xs)) => ss.iter().zip(xs).for_each(|(s, x)| walk(s, x, acc, only_payloads)),
+                (crate::dynshape::VKind::Struct(fs), Value::List(xs)) => fs.iter().zip(xs).for_each(|((_, s), x)| walk(s, x, acc, only_payloads)),
+                _ => {}
+            },
+            _ => {}
+        }
+    }
+    let (mut acc, mut only) = (0, true);
+    walk(shape, value, &mut acc, &mut only);
+    (acc, only)
+}
+
 fn total_borrowable(shape: &Shape, value: &Value) -> usize {
     // bytes that must live in the scratch buffer: every str / bytes payload
     ref_encode(shape, value).map(|e| e.payload_spans.iter().map(|s| s.1).sum()).unwrap_or(0)
@@ -225,6 +267,8 @@ pub fn check_reader(shape: &Shape, values: &[Value], sched: &Sched, l: &mut Loca
     let cj = || cj_owned.clone();
     set_pending(&cj_owned.to_string());
     let need: usize = values.iter().map(|v| total_borrowable(shape, v)).sum();
+    let uppers: Vec<(usize, bool)> = values.iter().map(|v| scratch_upper(shape, v)).collect();
+    let need_upper: usize = uppers.iter().map(|u| u.0).sum();
     let total = stream.len();
     for eio in [false, true] {
         // (1) roomy scratch, no fault: everything decodes, exact consumption
@@ -252,6 +296,14 @@ pub fn check_reader(shape: &Shape, values: &[Value], sched: &Sched, l: &mut Loca
             prev_ok_count = okc;
             if s < need && okc == values.len() {
                 return Err(fail("io", format!("all messages decoded with {} scratch bytes although {} borrowed bytes have to live there", s, need), cj()));
+            }
+            // a scratch buffer that holds everything the decoder routes through it is not "too small"
+            if s >= need_upper && okc != values.len() {
+                return Err(fail(
+                    "io",
+                    format!("scratch of {} bytes holds all {} bytes of borrowed strings/bytes, floats and chars of the {} messages, yet only {} decoded", s, need_upper, values.len(), okc),
+                    cj(),
+                ));
             }
             if s >= total && okc != values.len() {
                 return Err(fail("io", format!("scratch of {} bytes >= stream length {} but only {} of {} messages decoded", s, total, okc, values.len()), cj()));
